@@ -63,7 +63,7 @@ package sample
 //@   ensures[goals-scaled] goalsScaled(s)
 //@   modifies s.peerCount, s.sharedDynsamplers, s.goalThroughputConfigs
 
-//@ contract sample.(*SamplerFactory).ClearDynsamplers props C13 havocheap
+//@ contract sample.(*SamplerFactory).ClearDynsamplers props C12,C13 havocheap
 //@   requires s != nil
 //@   ensures[registry-emptied] card(s.sharedDynsamplers) == 0 && card(s.goalThroughputConfigs) == 0 && (forall k string :: !in(s.sharedDynsamplers, k) && !in(s.goalThroughputConfigs, k))
 //@   ensures[goals-scaled] goalsScaled(s)
@@ -73,3 +73,33 @@ package sample
 //@ contract sample.(*SamplerFactory).createSampler props C13 havoc
 //@   requires s != nil
 //@   ensures[goals-scaled-after-creation] result != nil ==> goalsScaled(s)
+
+// ---- C12: sampler state is shared across workers and isolated between definitions.
+// Ghost: the registry key under which the most recent lookup was made.
+//@ ghost registryKey(ref) string
+
+//@ contract sample.makeDynsamplerKey props C12 function
+//@   modifies nothing
+
+//@ contract sample.getMetricType inline
+//@ contract sample.(*dynsamplerMetricsRecorder).RegisterMetrics props C12
+//@   requires d != nil
+//@   modifies d.dynPrefix, d.lastMetrics, d.metricNames
+
+// Sharing: every worker asking for the same key gets the instance created first;
+// a new key gets a new instance, stored under that key, and no other entry changes.
+//@ contract sample.getSharedDynsamplerAndRecorder props C12 localcalls
+//@   requires s != nil
+//@   ghostupdate registryKey(s) :: registryKey(s) == dynsamplerKey
+//@   ensures[same-key-same-instance] in(old(s.sharedDynsamplers), dynsamplerKey) && implements(old(s.sharedDynsamplers)[dynsamplerKey].dynsampler, ST) ==> s.sharedDynsamplers == old(s.sharedDynsamplers) && result1 == old(s.sharedDynsamplers)[dynsamplerKey].recorder
+//@   ensures[new-key-new-entry] !in(old(s.sharedDynsamplers), dynsamplerKey) ==> in(s.sharedDynsamplers, dynsamplerKey) && s.sharedDynsamplers[dynsamplerKey].recorder == result1 && isFresh(result1)
+//@   ensures[other-entries-untouched] forall k string :: k != dynsamplerKey ==> in(s.sharedDynsamplers, k) == in(old(s.sharedDynsamplers), k) && s.sharedDynsamplers[k] == old(s.sharedDynsamplers)[k]
+//@   modifies s.sharedDynsamplers
+
+// The isolation clause "share state only if their entire configurations are identical":
+// the registry key of a DynamicSampler definition is computed from the prefix, the
+// rate and the field list only, so definitions that differ in ClearFrequency, MaxKeys
+// or UseTraceLength collide (open finding F-C12-1, witness in /verif/findings).
+//@ spec dynamicKey(prefix string, rate int64, clearFrequency int64, maxKeys int, useTraceLength bool) string := makeDynsamplerKey(prefix, "dynamic", rate, nil)
+//@ lemma C12.key-reflects-environment props C12 : forall p string, r int64, cf int64, mk int, tl bool :: dynamicKey(p, r, cf, mk, tl) == makeDynsamplerKey(p, "dynamic", r, nil)
+//@ lemma C12.key-distinguishes-tuning props C12 finding F-C12-1 : forall p string, r int64, cf1 int64, cf2 int64, mk int, tl bool :: cf1 != cf2 ==> dynamicKey(p, r, cf1, mk, tl) != dynamicKey(p, r, cf2, mk, tl)
